@@ -85,7 +85,16 @@ def run(ctx):
                 raise Broken("mtraffic: " + d["detail"])
             else:
                 ctx.violation("rough:" + d["sig"], "%s | %s" % (d.get("detail"), d.get("config", "")), d)
+    # an ending call that is blocked on the full write queue while the peer ends the same channel or the connection goes
+    from vlib import wakefam
+    br, bsum = wakefam.run_blocked(ctx)
+    states += br.distinct
     ctx.coverage = {
+        "blocked_on_full_queue": {"model": "MpxBlocked.tla", "schedules_replayed": bsum["schedules"], "conclusive": bsum["conclusive"],
+                                  "rule": "Send / SendAndClose / Free on a channel whose connection's write queue is full (raw peer not reading), "
+                                          "every order of {the call, the peer's close frame for that channel, the peer reading again or dropping "
+                                          "the connection}: the call waits and returns exactly when the model says, with its status class, no panic; "
+                                          "after a drain the peer holds every filler frame intact and in order and the model's number of frames of the channel"},
         "rough_traffic_runs": rough_runs,
         "states": states, "transitions": trans, "traces_validated_against_impl": total, "samples": samples,
         "invariants": ["NoLibraryPanic", "NoUserPanic", "NoUseAfterRelease", "RefsNonNegative", "ReleasedOnce", "NoPrematureRelease", "EndedClean"],
